@@ -348,7 +348,7 @@ class World:
         tickets = []
         for k in sorted(self.outs):
             r = self.outs[k]
-            if r['kind'] != 'O':
+            if r['kind'] not in ('O', 'OB'):
                 continue
             o = self.outcome(r['task'])
             if o == 'returned':
